@@ -382,11 +382,13 @@ class J1939_21:
                 }
             self.__job_thread_wakeup()
         elif control_byte == self.ConnectionMode.ABORT:
-            # if abort received before transmission established -> cancel transmission
+            # if abort received from the responder -> cancel transmission
             buffer_hash = self._buffer_hash(dest_address, src_address)
-            if buffer_hash in self._snd_buffer and self._snd_buffer[buffer_hash]['state'] == self.SendBufferState.WAITING_CTS:
+            if buffer_hash in self._snd_buffer and self._snd_buffer[buffer_hash]['state'] in (self.SendBufferState.WAITING_CTS, self.SendBufferState.SENDING_IN_CTS):
                 self._snd_buffer[buffer_hash]['state'] = self.SendBufferState.TRANSMISSION_FINISHED
                 self._snd_buffer[buffer_hash]['deadline'] = time.time()
+                # let the job thread remove the buffer now, not at its next (unrelated) wakeup
+                self.__job_thread_wakeup()
             # TODO: any more abort responses?
             pass
         else:
